@@ -74,6 +74,13 @@ def build():
     defs += follow_items(rv, "rb_parse", "ParseMessageBytes<'a> for RevNameBuf", "parse_message_bytes", "RevNameBuf::parse_message_bytes")
     m = one(r"const\s+fn\s+empty\(\)\s*->\s*Self\s*\{\s*Self\s*\{\s*offset\s*:\s*" + NUM, rv, "RevNameBuf::empty offset")
     defs.append(("rb_empty_offset", "N", N(num(m.group(1)))))
+    # the uncompressed parser Name::split_bytes_by_ref
+    sbr = fn_body(ab, "split_bytes_by_ref", after="unsafe impl SplitBytesZC for Name")
+    m = one(r"while\s+offset\s*(<=|<)\s*" + NUM + r"\s*\{", sbr, "Name::split_bytes_by_ref loop bound")
+    defs.append(("name_flat_bound", "N", N(num(m.group(2)))))
+    defs.append(("name_flat_strict", "bool", b(m.group(1) == "<")))
+    one(r"\[\s*l\s*@\s*1\s*\.\.=\s*63\s*,\s*ref\s+rest\s*@\s*\.\.\s*\]\s*if\s+rest\.len\(\)\s*>=\s*l\s+as\s+usize\s*=>\s*\{\s*offset\s*\+=\s*1\s*\+\s*l\s+as\s+usize\s*;", sbr, "Name::split_bytes_by_ref label arm")
+    one(r"\[\s*0\s*,\s*\.\.\s*\]\s*=>\s*\{\s*let\s*\(name,\s*rest\)\s*=\s*bytes\.split_at\(\s*offset\s*\+\s*1\s*\)", sbr, "Name::split_bytes_by_ref root arm")
     # Name::build_in_message: the pointer that is written
     bim = fn_body(ab, "build_in_message", after="impl BuildInMessage for Name")
     m = one(r"let\s+addr\s*=\s*\(\s*addr\s*\+\s*" + NUM + r"\s*\)\.to_be_bytes\(\)", bim, "Name::build_in_message pointer")
